@@ -774,6 +774,11 @@ def compare(ctx, cases, models, recs, recs_meta, stats):
             stats["known_class_programs"] += 1
             if impl != m["spec"]:
                 stats["known_class_differs"] += 1
+                if impl == m["mech"] and not stats.get("known_reported") and known_open(ctx):
+                    stats["known_reported"] = True
+                    ctx.violation("generated program in the known class: super inside a nested function",
+                                  input={"source": m["src"], "term": c["term"], "globals": c["globals"]},
+                                  expected=m["spec"], actual=impl, known_class=KNOWN_SUPER_NESTED)
         else:
             if m["spec"] != m["mech"]:
                 fails.append((i, "M!=S", {"spec": m["spec"], "mech": m["mech"]}))
@@ -836,6 +841,9 @@ def shrink(ctx, case, kind, stats):
 class Dummy:
     def __init__(self):
         self.broken = []
+
+    def known_open(self):
+        return []
 
 
 def new_stats():
@@ -919,12 +927,62 @@ def finding_probe(ctx):
                          % (KNOWN_SUPER_NESTED, got))
 
 
-def other_reference(ctx):
-    if all(os.path.exists(os.path.join(yvlib.COQ, "theories", f)) for f in ("SpecRun.v", "ParseRun.v")):
-        ctx.notes.append("SpecRun.v/ParseRun.v exist: the comparison with the full reference interpreter is not wired into "
-                         "this check (its interface appeared after this plug-in was written)")
+def refspec_outcome(text):
+    """YV.SpecScripts.run_case text -> the format of ClassLang.show_outcome (None when out of fuel / unparsable)"""
+    m = re.match(r"out=\[(.*?)\];res=(.*)$", text or "")
+    if not m:
+        return None
+    lines = [yvlib.unhx(h).decode("utf-8", "replace") for h in m.group(1).split(",")] if m.group(1) else []
+    res = m.group(2)
+    if res.startswith("ok:"):
+        tail = "ok"
+    elif res.startswith("err:"):
+        mm = re.match(r"err:(\w+):\[(.*?)\]$", res)
+        if not mm:
+            return None
+        msgs = [yvlib.unhx(h).decode("utf-8", "replace") for h in mm.group(2).split(",")] if mm.group(2) else [""]
+        m2 = re.match(r"Unhandled (\w+): (.*)$", msgs[0])
+        tail = "err:%s:%s" % (m2.group(1), m2.group(2)) if m2 else "err:%s:%s" % (mm.group(1), msgs[0])
     else:
-        ctx.notes.append("SpecRun.v/ParseRun.v (full reference interpreter) not present: that comparison is skipped")
+        return None
+    return "~".join(lines) + "#" + tail
+
+
+def other_reference(ctx, cases, models, recs, limit):
+    """the full reference interpreter of the other checks (SpecScripts.run_case over the parser model), when built"""
+    need = ["SpecRun.v", "ParseRun.v", "SpecScripts.vo"]
+    if not all(os.path.exists(os.path.join(yvlib.COQ, "theories", f)) for f in need):
+        ctx.notes.append("SpecRun.v/ParseRun.v (full reference interpreter) not built: that comparison is skipped")
+        return
+    idx = [i for i, m in enumerate(models) if m and not m["known"]][:limit]
+    terms = ['run_case 400 nil "%s"' % hx(models[i]["src"]) for i in idx]
+    shard = max(2, min(20, (len(terms) + yvlib.NPROC - 1) // yvlib.NPROC))
+    try:
+        res = yvlib.coq_eval(["YV:SpecScripts"], terms, shard_size=shard, tag="c07_refspec", preamble="Open Scope string_scope.")
+    except Exception as e:
+        ctx.notes.append("reference interpreter could not be evaluated: %r" % e)
+        return
+    agree = differ = skipped = 0
+    first = None
+    for i, t in zip(idx, res):
+        ro = refspec_outcome(t)
+        if ro is None:
+            skipped += 1
+            continue
+        impl = impl_outcome(recs[i])
+        if ro == impl:
+            agree += 1
+        else:
+            differ += 1
+            if first is None:
+                first = {"source": models[i]["src"], "reference": ro, "impl": impl, "this_check_spec": models[i]["spec"]}
+    ctx.cov.update({"reference_interpreter_programs": len(idx), "reference_interpreter_agree": agree,
+                    "reference_interpreter_differ": differ, "reference_interpreter_skipped": skipped})
+    if differ:
+        # impl == S of this check is decided above; a disagreement with the other Spec is reported, not decided, here
+        ctx.cov["reference_interpreter_first_difference"] = first
+        ctx.notes.append("%d programs on which the implementation differs from the full reference interpreter "
+                         "(SpecScripts.run_case); first one in coverage.reference_interpreter_first_difference" % differ)
 
 
 def run(ctx):
@@ -942,14 +1000,14 @@ def run(ctx):
         ctx.cov.update({"evaluations": 1, "distinct_nontrivial": len(stats["nontrivial"]), "rule": "replay of one program",
                         "samples": [inp.get("source", "")]})
         return
-    n = int(os.environ.get("C07_N", "0")) or (320 if ctx.quick() else 5000)
+    n = int(os.environ.get("C07_N", "0")) or (320 if ctx.quick() else 2400)
     cases = [gen_program(ctx.rng, big=(i % 3 == 2)) for i in range(n)]
     stats = new_stats()
     models, recs, recsm = run_batch(ctx, cases, "c07", stats)
     fails = compare(ctx, cases, models, recs, recsm, stats)
     report(ctx, cases, models, fails, stats)
     finding_probe(ctx)
-    other_reference(ctx)
+    other_reference(ctx, cases, models, recs, 32 if ctx.quick() else 300)
     feats = {}
     for c in cases:
         for f in c["features"]:
